@@ -410,6 +410,18 @@ def gen_sound(tier, seed, env_text):
         [[mk_call(f, [dk("a", "b")], dk("a")), mk_call(f, [dk("c", "d")], dk("b")), mk_call(f, [dk("e")], dk("c", "d"))]
          for f in ("f1", "K.m", "f0")] + [[mk_call("f1", [C("list", dk("a", "b"), dk("c"))], A("int")), mk_call("f1", [C("list", dk("d"))], A("int"))]],
         [1, 2, 3], ["NONE", "DEFAULT"], [""])
+    # records whose shared key is optional after one call (it is missing from a sibling record) and then shows up with
+    # another value type: the merged field must admit both
+    rec = lambda **kv: C("dict", *[P(Sx(k), v) for k, v in kv.items()])  # noqa: E731
+    opt_then_other = []
+    for f in ("f1", "K.m"):
+        for t1, t2 in ((Sx("s"), A("int")), (A("int"), A("NoneType")), (C("list", A("int")), Sx("s"))):
+            first = C("list", rec(a=A("int")), rec(a=A("int"), b=t1))
+            opt_then_other.append([mk_call(f, [first], A("int")), mk_call(f, [C("list", rec(a=A("int"), b=t2))], A("int"))])
+            opt_then_other.append([mk_call(f, [C("list", rec(a=A("int"), b=t2))], A("int")), mk_call(f, [first], A("int"))])
+            opt_then_other.append([mk_call(f, [first], A("int")), mk_call(f, [C("list", rec(b=t2), rec(a=A("int")))], first)])
+    add("a key that is optional after one call and has another value type in a later call (k >= 2)", opt_then_other,
+        [2, 3], ["NONE", "DEFAULT"], [""])
     ypool = [A("int"), Sx("s"), A("NoneType"), C("list", A("int")), C("tuple", Sx("s"), A("float")), absmodel.T("classobj", "mtfx.shapes.A"),
              A("mtfx.shapes.A"), C("set", A("int")), C("dict", P(A("int"), Sx("s"))), A("float")]
     add("one generator run yielding every ordered pair of 10 shapes (a generic first, one of its parameters later, ...)",
